@@ -1127,6 +1127,10 @@ func (c *ArrayConverter) To(obj Object) (interface{}, error) {
 	if !ok {
 		return nil, errz.TypeErrorf("type error: expected a list (%s given)", obj.Type())
 	}
+	if len(list.items) > c.len {
+		return nil, errz.TypeErrorf("type error: list of length %d does not fit in an array of length %d",
+			len(list.items), c.len)
+	}
 	array := reflect.New(reflect.ArrayOf(c.len, c.valueType))
 	arrayElem := array.Elem()
 	for i, v := range list.items {
